@@ -46,6 +46,19 @@ Theorem C13_restart_tip_matches : forall d, Consistent d ->
   exists t id, d KTipMark = Some t /\ d (KIdx t) = Some id /\ d (KHeader id) = Some t /\ forall k, d (KIdx (t + 1 + k)) = None.
 Proof. exact restart_tip_matches. Qed.
 
+(* The stronger consistency (round 6): besides [Consistent], the finalized height is stored and not above the tip, every height in
+   (finalized, tip] still has its revert diff (those blocks can be reverted), and every indexed block that has a payload has it
+   stored.  Side conditions now include what the code guarantees: finalized' between the stored value and the block's height, diffs
+   pruned strictly below it, deleteBlock's guard (height > finalized), a_body = "the block has a payload". *)
+Theorem C13_crash_consistent2 : forall hb ops d n k o, Consistent2 hb d -> history_ok2 hb d ops -> nth_error ops n = Some o ->
+  let before := run_ops d (firstn n ops) in
+  let recovered := durable_after before (firstn k (actions_of o)) in
+  Consistent2 hb recovered /\ (recovered = before \/ recovered = durable_after before (actions_of o)).
+Proof. exact crash_consistent2. Qed.
+
+Theorem C13_consistent2_b_sound : forall hbl l, consistent2_b hbl l = true -> Consistent2 (has_body_in hbl) (lget l).
+Proof. exact consistent2_b_sound. Qed.
+
 (* restore from the temp table (processValidated with removeTemp after deleteBlock with saveTemp): at every crash point the
    block is on the chain or still in the temp table, never in neither *)
 Theorem C13_restore_never_loses_block : forall d i k, present d (KTemp (a_h i)) ->
